@@ -49,6 +49,26 @@ def gen_pauli_word(r, wires, max_len=3):
     return ["P", "".join(r.choice("XYZ") for _ in ws), ws]
 
 
+def gen_pm1_obs(r, wires):
+    """Observables whose spectrum is {+1, -1} (or a multiple) but whose eigenvalue order is NOT the bit
+    parity order: scaled Pauli words, words padded with identities, Hermitian involutions."""
+    k = r.random()
+    if k < 0.4:
+        p = gen_pauli_word(r, wires, 3)
+        return ["SP", r.choice([-1.0, -1.0, 1.0, -0.5, 2.0]), p[1], p[2]]
+    if k < 0.65 and len(wires) >= 2:
+        ws = sorted(r.sample(list(wires), r.randint(2, min(3, len(wires)))))
+        word = [r.choice("XYZ") for _ in ws]
+        word[r.randrange(len(ws))] = "I"
+        if all(c == "I" for c in word):
+            word[0] = "Z"
+        return ["P", "".join(word), ws]
+    if len(wires) >= 2:
+        ws = r.sample(list(wires), 2)
+        return ["HM", r.choice(["SWAP", "XX", "CNOT", "-ZZ", "XZ", "RND%d" % r.randrange(8)]), ws]
+    return ["SP", -1.0, "Z", [wires[0]]]
+
+
 def gen_obs(r, wires, allow_hermitian=True):
     k = r.random()
     if k < 0.6:
@@ -162,6 +182,12 @@ def build_obs(spec):
         return qp.sum(*[qp.s_prod(c, _word(w, ws)) for c, w, ws in spec[1]])
     if kind == "Proj":
         return qp.Projector(spec[1], wires=spec[2])
+    if kind == "SP":  # scaled Pauli word, e.g. -1.0 * (Z(0) @ Z(1))
+        return qp.s_prod(spec[1], _word(spec[2], spec[3]))
+    if kind == "HM":  # Hermitian given by a named involutory matrix (eigenvalues +-1, sorted by eigh)
+        from ref import sim
+
+        return qp.Hermitian(sim.named_matrix(spec[1]), wires=spec[2])
     raise ValueError(kind)
 
 
